@@ -17,6 +17,8 @@ every theorem about it fail - a broken tie, never a silently wrong model):
   * the literal matrices of Exp_Spline / Buck4_Spline (atsim/potentials/spline/__init__.py).
 """
 import ast
+import warnings
+warnings.simplefilter("ignore")
 import json
 import os
 import sys
@@ -336,11 +338,142 @@ def gen_combinators(repo, outdir, summary):
 
 
 # ----------------------------------------------------------------------------------------------------------------------
+class MatrixTranslator(object):
+    """straight-line `name = expr` prefix of a method, attribute chains mapped to numbered symbols, then literal matrices"""
+
+    def __init__(self, src, symtab):
+        self.src = src
+        self.symtab = symtab      # "self.detach_point.r" -> param index
+
+    def chain(self, e):
+        parts = []
+        while isinstance(e, ast.Attribute):
+            parts.append(e.attr)
+            e = e.value
+        if isinstance(e, ast.Name):
+            parts.append(e.id)
+            return ".".join(reversed(parts))
+        return None
+
+    def expr(self, e, env):
+        if isinstance(e, ast.Constant) and isinstance(e.value, (int, float)) and not isinstance(e.value, bool):
+            return lit_of_text(ast.get_source_segment(self.src, e))
+        if isinstance(e, ast.Name):
+            if e.id in env:
+                return env[e.id]
+            raise Untranslatable("free name %s" % e.id)
+        if isinstance(e, ast.Attribute):
+            c = self.chain(e)
+            if c in self.symtab:
+                return ("param", self.symtab[c])
+            raise Untranslatable("attribute %s" % c)
+        if isinstance(e, ast.UnaryOp) and isinstance(e.op, ast.USub):
+            return ("neg", self.expr(e.operand, env))
+        if isinstance(e, ast.BinOp):
+            if isinstance(e.op, ast.Pow):
+                n = FormTranslator.int_literal(e.right)
+                if n is None or n < 0:
+                    raise Untranslatable("non-literal power")
+                return ("npow", self.expr(e.left, env), n)
+            op = {ast.Add: "add", ast.Sub: "sub", ast.Mult: "mul", ast.Div: "div"}.get(type(e.op))
+            if op is None:
+                raise Untranslatable("operator")
+            return (op, self.expr(e.left, env), self.expr(e.right, env))
+        if isinstance(e, ast.Call) and isinstance(e.func, ast.Attribute) and isinstance(e.func.value, ast.Name) and e.func.value.id == "math" and e.func.attr == "log":
+            return ("log", self.expr(e.args[0], env))
+        raise Untranslatable("expression %s" % type(e).__name__)
+
+    def run(self, fn, want):
+        """walk the body; returns {name: python list structure of terms} for the names in `want`; `if` blocks are skipped
+        (the upward shift of Exp_Spline is modelled by hand and validated numerically)"""
+        env, out = {}, {}
+        for st in fn.body:
+            if isinstance(st, ast.Assign) and len(st.targets) == 1 and isinstance(st.targets[0], ast.Name):
+                name = st.targets[0].id
+                v = st.value
+                if name in want:
+                    node = v
+                    if isinstance(node, ast.Call) and node.args:      # np.array([...]) / np.reshape(X, ..)
+                        if isinstance(node.func, ast.Attribute) and node.func.attr == "reshape":
+                            continue
+                        node = node.args[0]
+                    out[name] = self.listexpr(node, env)
+                    continue
+                try:
+                    env[name] = self.expr(v, env)
+                except Untranslatable:
+                    pass
+        return out
+
+    def listexpr(self, node, env):
+        if isinstance(node, (ast.List, ast.Tuple)):
+            return [self.listexpr(x, env) for x in node.elts]
+        return self.expr(node, env)
+
+
+def lean_list(x):
+    if isinstance(x, list):
+        return "[" + ", ".join(lean_list(y) for y in x) + "]"
+    return lean(x)
+
+
+def gen_splines(repo, outdir, summary):
+    path = os.path.join(repo, "atsim/potentials/spline/__init__.py")
+    src = open(path).read()
+    tree = ast.parse(src)
+    classes = {n.name: n for n in tree.body if isinstance(n, ast.ClassDef)}
+    out = ["import AtsimModel.Model.Expr",
+           "/-! GENERATED by translator/py2lean.py from atsim/potentials/spline/__init__.py - do not edit.",
+           "    Exp_Spline symbols: param 0=sx 1=ex 2=sy 3=ey (after the upward shift) 4=sdydx 5=edydx 6=sddydx 7=eddydx",
+           "    Buck4_Spline symbols: param 0=r_dp 1=r_min 2=r_ap 3=dp.v 4=dp.deriv 5=dp.deriv2 6=ap.v 7=ap.deriv 8=ap.deriv2 -/",
+           "namespace Atsim.Gen", "open Atsim", ""]
+    res = {}
+
+    def method(cls, name):
+        for n in classes[cls].body:
+            if isinstance(n, ast.FunctionDef) and n.name == name:
+                return n
+        raise Untranslatable("no %s.%s" % (cls, name))
+    try:
+        mt = MatrixTranslator(src, {"self.detach_point.r": 0, "self.attach_point.r": 1, "self.detach_point.v": 2, "self.attach_point.v": 3,
+                                    "self.detach_point.deriv": 4, "self.attach_point.deriv": 5, "self.detach_point.deriv2": 6, "self.attach_point.deriv2": 7})
+        got = mt.run(method("Exp_Spline", "_init_spline_coefficients"), {"A", "B"})
+        A, B = got["A"], got["B"]
+        if len(A) != 6 or any(len(r) != 6 for r in A) or len(B) != 6:
+            raise Untranslatable("Exp_Spline system is not 6x6")
+        res["exp"] = True
+    except (Untranslatable, KeyError) as e:
+        A, B = [[("bad",)]], [("bad",)]
+        res["exp"] = str(e)
+    out.append("def expA : List (List E) := " + lean_list(A))
+    out.append("def expB : List E := " + lean_list(B))
+    out.append("")
+    try:
+        mt = MatrixTranslator(src, {"self.detach_point.r": 0, "self.r_min": 1, "self.attach_point.r": 2, "self.detach_point.v": 3, "self.detach_point.deriv": 4,
+                                    "self.detach_point.deriv2": 5, "self.attach_point.v": 6, "self.attach_point.deriv": 7, "self.attach_point.deriv2": 8})
+        got = mt.run(method("Buck4_Spline", "_init_spline_coefficients"), {"M", "V"})
+        M, V = got["M"], got["V"]
+        if len(M) != 100 or len(V) != 10:
+            raise Untranslatable("Buck4_Spline system is not 10x10")
+        M = [M[i * 10:(i + 1) * 10] for i in range(10)]
+        res["buck4"] = True
+    except (Untranslatable, KeyError) as e:
+        M, V = [[("bad",)]], [("bad",)]
+        res["buck4"] = str(e)
+    out.append("def buck4M : List (List E) := " + lean_list(M))
+    out.append("def buck4V : List E := " + lean_list(V))
+    out += ["", "end Atsim.Gen", ""]
+    changed = write_if_changed(os.path.join(outdir, "Splines.lean"), "\n".join(out))
+    summary["splines"] = dict(changed=changed, systems=res)
+
+
+# ----------------------------------------------------------------------------------------------------------------------
 def main():
     repo, outdir = sys.argv[1], sys.argv[2]
     summary = {}
     gen_forms(repo, outdir, summary)
     gen_combinators(repo, outdir, summary)
+    gen_splines(repo, outdir, summary)
     bad = []
     for k, e in summary["forms"]["forms"].items():
         for m, v in e.items():
@@ -349,6 +482,9 @@ def main():
     for k, v in summary["combinators"]["closures"].items():
         if v is not True:
             bad.append("%s: %s" % (k, v))
+    for k, v in summary["splines"]["systems"].items():
+        if v is not True:
+            bad.append("spline system %s: %s" % (k, v))
     print(json.dumps(dict(summary=dict(untranslatable=bad, forms_changed=summary["forms"]["changed"], combinators_changed=summary["combinators"]["changed"]),
                           detail=summary)))
 
